@@ -247,7 +247,8 @@ struct HCont : Harness {
     bool faulty = fr.chance(0.2);
     int fault_op = faulty ? (int)fr.below(nops) : -1;
     std::vector<std::string> ops;
-    auto around = [&](void) { uint64_t r = wr.below(10); return (int)(r < 1 ? 0 : r < 8 ? wr.range(1, 5) : wr.range(6, 12)); };  // sizes: zero sometimes, mostly small
+    // sizes: zero sometimes, mostly small; now and then a large one (growth policies and size thresholds must not hide a path)
+    auto around = [&](void) { uint64_t r = wr.below(200); return (int)(r < 3 ? wr.range(20, 200) : r < 20 ? 0 : r < 160 ? wr.range(1, 5) : wr.range(6, 12)); };
     for (int i = 0; i < nops; i++) {
       OpRec o; o.a = (int)wr.below(POOL); o.b = (int)wr.below(12); o.c = (int)wr.below(12); o.fail_at = i == fault_op ? (int)fr.range(1, 6) : 0;
       o.v = wr.chance(0.05) ? NAN : (wr.chance(0.5) ? (double)wr.range(-9, 9) : wr.uniform(-1e3, 1e3));
